@@ -157,7 +157,7 @@ class C09(Check):
 
     def run(self, plan: dict[str, Any]) -> dict[str, Any]:
         res = new_result()
-        world = CmdWorld(seed=plan["net_seed"], log_level=100)
+        world = CmdWorld(seed=plan["net_seed"], log_level=25)
         try:
             self._run(plan, world, res)
         finally:
@@ -165,12 +165,22 @@ class C09(Check):
             world.destroy()
         return res
 
+    @staticmethod
+    def _sess(text: str) -> int:
+        """Session as printed by the scanner: a number, or the name of a standard session."""
+        try:
+            return int(text, 0)
+        except ValueError:
+            from gallia.services.uds.core.constants import DiagnosticSessionControlSubFuncs
+
+            return int(DiagnosticSessionControlSubFuncs[text.strip()])
+
     def _run(self, plan: dict[str, Any], world: CmdWorld, res: dict[str, Any]) -> None:
         tmp = Path(world.tmp)
         graph = {int(k): list(v) for k, v in plan["graph"].items()}
         world.net.policy_factory = lambda i, d: Policy(seed=plan["net_seed"] + 2 * i + (d == "s2c"), segment=plan["segment"], lat_min=plan["lat"][0], lat_max=plan["lat"][1])
         world.sql.latency = lambda c, n: 0.0003
-        world.install()
+        world.install(capture=lambda r: getattr(r, "tags", None) == ["result"])
         ecu = GraphECU(graph, offer_reset=plan["offer_reset"])
         kw: dict[str, Any] = {}
         if plan["db"]:
@@ -189,6 +199,7 @@ class C09(Check):
                 await prior.entry_point()
                 ecu.state.reset()
                 ecu.monitor.requests.clear()
+                world.records.clear()
             cmd = SessionsScanner(cfg)
             holder["cmd"] = cmd
             return await cmd.entry_point()
@@ -222,6 +233,35 @@ class C09(Check):
                 why = f"missing at model depth {sorted({depth_of[m] for m in missing})} (limit {plan['depth']})"
             violation(res, "C09/reachability", f"C09/reachability:{kind}:{'thorough' if plan['thorough'] else 'normal'}",
                       f"scan reported {got}, reachable within depth {plan['depth']} are {sorted(want)} (extra {extra}, missing {missing}) {why}; graph {graph} skip {sorted(skip)}")
+        # every reported session comes with stacks that really lead there (result-tagged records of the last scan)
+        msgs = [r.getMessage() for r in world.records]
+        if "Scan finished; Found the following sessions:" in msgs:
+            last = len(msgs) - 1 - msgs[::-1].index("Scan finished; Found the following sessions:")
+            cur_s = None
+            listed: dict[int, int] = {}
+            for m in msgs[last + 1 :]:
+                if m.startswith("The following sessions were identified"):
+                    break
+                if m.startswith("* Session "):
+                    cur_s = self._sess(m.split()[2])
+                    listed[cur_s] = 0
+                elif m.startswith("\tvia stack:") and cur_s is not None:
+                    path = [self._sess(x) for x in m.split(":", 1)[1].split("(")[0].strip().split("->")]
+                    listed[cur_s] += 1
+                    ok = bool(path) and path[0] == 1 and len(path) <= plan["depth"] and not (set(path[1:]) | {cur_s}) & (skip - {1})
+                    prev = None
+                    for s_ in path + [cur_s]:
+                        if prev is not None and s_ not in graph.get(prev, []):
+                            ok = False
+                        prev = s_
+                    if not ok:
+                        violation(res, "C09/stack", "C09/stack:reported-path-does-not-lead-there",
+                                  f"reported 'session {cur_s:#x} via stack {path}' is not a sequence of at most {plan['depth']} allowed session changes in {graph} (skip {sorted(skip)})")
+                        break
+            if sorted(listed) != got or any(v == 0 for v in listed.values()):
+                violation(res, "C09/stack", "C09/stack:session-without-stack", f"sessions listed with stacks {listed} vs result {got}")
+        elif got:
+            violation(res, "C09/stack", "C09/stack:no-result-records", "sessions were found but no result records were logged")
         # skipped sessions never requested
         for sess, pdu in ecu.monitor.requests:
             if len(pdu) >= 2 and pdu[0] == 0x10 and (pdu[1] & 0x7F) in skip and (pdu[1] & 0x7F) != 1:
